@@ -20,6 +20,7 @@ import (
 	crisistypes "github.com/cosmos/cosmos-sdk/x/crisis/types"
 	distrtypes "github.com/cosmos/cosmos-sdk/x/distribution/types"
 	govv1 "github.com/cosmos/cosmos-sdk/x/gov/types/v1"
+	govv1beta1 "github.com/cosmos/cosmos-sdk/x/gov/types/v1beta1"
 	minttypes "github.com/cosmos/cosmos-sdk/x/mint/types"
 	slashingtypes "github.com/cosmos/cosmos-sdk/x/slashing/types"
 	stakingtypes "github.com/cosmos/cosmos-sdk/x/staking/types"
@@ -128,6 +129,7 @@ var gshort = map[string]string{
 	"spend":        "/cosmos.distribution.v1beta1.MsgCommunityPoolSpend",
 	"send":         "/cosmos.bank.v1beta1.MsgSend", // a non-privileged type for mixed-type attempts
 	"verifyinv":    "/cosmos.crisis.v1beta1.MsgVerifyInvariant",
+	"legacytext":   "/cosmos.gov.v1.MsgExecLegacyContent", // a v1beta1 text proposal wrapped the way the legacy submit path wraps it
 }
 
 // gmsg builds one message. handwritten reports whether the payload is a hand-written valid
@@ -161,6 +163,9 @@ func gmsg(w *World, kind string, a Args, auth string) (m sdk.Msg, handwritten bo
 			amt = a.SdkInt("amount")
 		}
 		return banktypes.NewMsgSend(gmustAddr(w, auth), gmustAddr(w, def("to", "user/0")), sdk.NewCoins(sdk.NewCoin(fxtypes.DefaultDenom, amt))), true, nil
+	case "/cosmos.gov.v1.MsgExecLegacyContent":
+		lc, err := govv1.NewLegacyContent(govv1beta1.NewTextProposal(def("title", "legacy text"), def("desc", "a legacy text proposal")), auth)
+		return lc, true, err
 	case "/cosmos.crisis.v1beta1.MsgVerifyInvariant":
 		// the handler panics by design when the named invariant is broken
 		return &crisistypes.MsgVerifyInvariant{Sender: auth, InvariantModuleName: def("module", "gov"), InvariantRoute: def("route", "module-account")}, true, nil
